@@ -8,6 +8,7 @@
 mod alloc;
 mod c07;
 mod c10;
+mod c16;
 mod check;
 mod ctx;
 mod elems;
@@ -107,8 +108,22 @@ pub fn run_seed(seed: u64, prop: Prop, run: u64) -> u64 {
 
 pub fn generate(prop: Prop, seed: u64, run: u64, thorough: bool) -> RunSpec {
     let mut rng = Rng::new(run_seed(seed, prop, run));
+    if prop == Prop::C14 {
+        return gen::generate_c14(&mut rng);
+    }
     let prof = props::profile(prop, thorough);
-    gen::generate(&mut rng, &prof)
+    let mut spec = gen::generate(&mut rng, &prof);
+    if prop == Prop::C17 && rng.chance(1, 2) && !spec.ops.is_empty() {
+        // fault schedule: one or two panics at early callbacks of random steps
+        for _ in 0..rng.range(1, 2) {
+            let at = rng.below(spec.ops.len() as u64) as usize;
+            let nth = 1 + rng.below(6);
+            if !spec.faults.iter().any(|f| f.at == at) {
+                spec.faults.push(Fault { at, nth });
+            }
+        }
+    }
+    spec
 }
 
 fn arg<'a>(args: &'a [String], name: &str) -> Option<&'a str> {
@@ -146,6 +161,8 @@ fn cmd_run(args: &[String]) -> i32 {
     let mut elem_runs: BTreeMap<String, u64> = BTreeMap::new();
     let mut hasher_runs: BTreeMap<String, u64> = BTreeMap::new();
     let mut truncated = false;
+    let want_hash = prop == Prop::C17;
+    let mut hash_file = arg(args, "--hash-out").map(|p| std::fs::OpenOptions::new().create(true).append(true).open(p).expect("open hash file"));
 
     let mut i = from + offset;
     while i < from + count {
@@ -158,7 +175,20 @@ fn cmd_run(args: &[String]) -> i32 {
             libc::alarm(hang_secs);
         }
         let spec = generate(prop, seed, i, thorough);
-        let o = run_for_prop(prop, &spec, false);
+        let o = run_for_prop(prop, &spec, want_hash);
+        if want_hash {
+            let mut h = 0xcbf2_9ce4_8422_2325u64;
+            for l in &o.transcript {
+                for b in l.bytes() {
+                    h = (h ^ b as u64).wrapping_mul(0x100_0000_01b3);
+                }
+                h = (h ^ 0xff).wrapping_mul(0x100_0000_01b3);
+            }
+            if let Some(f) = hash_file.as_mut() {
+                use std::io::Write;
+                let _ = writeln!(f, "{} {:016x} {}", i, h, o.transcript.len());
+            }
+        }
         runs += 1;
         steps += o.steps as u64;
         if o.nontrivial {
@@ -243,6 +273,16 @@ fn cmd_replay(args: &[String]) -> i32 {
         for l in &o.transcript {
             println!("  {}", l);
         }
+    }
+    if args.iter().any(|a| a == "--hash") {
+        let mut h = 0xcbf2_9ce4_8422_2325u64;
+        for l in &o.transcript {
+            for b in l.bytes() {
+                h = (h ^ b as u64).wrapping_mul(0x100_0000_01b3);
+            }
+            h = (h ^ 0xff).wrapping_mul(0x100_0000_01b3);
+        }
+        println!("HASH {:016x} {}", h, o.transcript.len());
     }
     match o.violation {
         Some(a) => {
